@@ -142,7 +142,8 @@ Proof.
   destruct (step_minus s t p V) as [s1 [E1 [V1 [P1 P2]]]].
   destruct (step_minus_digit s1 t c p V1 P1 P2 Hcan (dec_yes_neg c [] Hc (Forall_nil _))) as [s2 [E2 V2]].
   destruct (run_plain ds s2 [45; c] t c F V2) as [s3 [E3 V3]].
-  destruct (step_delim s3 ([45; c] ++ ds) t _ d tok Hdl ltac:(discriminate) Hd V3) as [s4 [E4 V4]].
+  assert ([45; c] ++ ds <> []) as Hne by discriminate.
+  destruct (step_delim s3 ([45; c] ++ ds) t (last ds c) d tok Hdl Hne Hd V3) as [s4 [E4 V4]].
   exists s4. split; [|exact V4].
   change ((45 :: c :: ds) ++ [d]) with (45 :: c :: (ds ++ [d])). cbn [lex_all]. rewrite E1, E2.
   rewrite lex_all_app, E3. cbn [lex_all]. rewrite E4. reflexivity.
@@ -175,7 +176,7 @@ Proof.
   unfold plain. destruct (mem_z x special_runes); [discriminate|reflexivity].
 Qed.
 
-Theorem bool_lexes : forall b, lexes_to (if b then str_true else str_false) [mkTok TBool (if b then str_true else str_false)].
+Theorem bool_lexes : forall b : bool, lexes_to (if b then str_true else str_false) [mkTok TBool (if b then str_true else str_false)].
 Proof. intros [|]; apply word_lexes; try discriminate; vm_compute; reflexivity. Qed.
 
 Theorem nil_lexes : lexes_to str_nil [mkTok TSymbol str_nil].
@@ -222,7 +223,7 @@ Proof.
   intros c Hc s t p d Hdl _ V. unfold quote_rune.
   destruct (step_rune_open s t p V) as [s1 [E1 V1]].
   destruct (esc_in_rune c s1 [39] t 39 Hc V1) as [s2 [q [E2 V2]]].
-  destruct (step_rune_close s2 _ t q (mkTok TChar [c]) (decode_char_atom c (proj1 Hc)) V2) as [s3 [E3 V3]].
+  destruct (step_rune_close s2 ([39] ++ [c]) t q (mkTok TChar [c]) (decode_char_atom c (proj1 Hc)) V2) as [s3 [E3 V3]].
   destruct (step_delim0 s3 _ 39 d Hdl V3) as [s4 [E4 V4]].
   exists s4. split; [|rewrite <- app_assoc in V4; exact V4].
   cbn [app lex_all]. rewrite E1. rewrite <- app_assoc. rewrite lex_all_app, E2. cbn [app lex_all]. rewrite E3, E4. reflexivity.
@@ -274,3 +275,647 @@ Proof.
 Qed.
 
 End WithIsPrint.
+
+(* ======== C: the token stream of a printed value ======== *)
+
+Section ValueInd.
+Variable P : value -> Prop.
+Hypothesis Hint : forall z, P (VInt z).
+Hypothesis Huint : forall z, P (VUint z).
+Hypothesis Hfloat : forall b s c, P (VFloat b s c).
+Hypothesis Hbool : forall b, P (VBool b).
+Hypothesis Hnil : P VNil.
+Hypothesis Hchar : forall c, P (VChar c).
+Hypothesis Hstr : forall s, P (VStr s).
+Hypothesis Hsym : forall n, P (VSym n).
+Hypothesis Hpair : forall h t, P h -> P t -> P (VPair h t).
+Hypothesis Harr : forall l, Forall P l -> P (VArr l).
+Hypothesis Hhash : forall kvs, P (VHash kvs).
+
+Fixpoint value_ind2 (v : value) : P v :=
+  match v with
+  | VInt z => Hint z | VUint z => Huint z | VFloat b s c => Hfloat b s c | VBool b => Hbool b | VNil => Hnil
+  | VChar c => Hchar c | VStr s => Hstr s | VSym n => Hsym n
+  | VPair h t => Hpair h t (value_ind2 h) (value_ind2 t)
+  | VArr l => Harr l ((fix go (l : list value) : Forall P l :=
+                         match l with [] => Forall_nil P | x :: r => Forall_cons x (value_ind2 x) (go r) end) l)
+  | VHash kvs => Hhash kvs
+  end.
+End ValueInd.
+
+(* sequencing lemmas *)
+Lemma can_start_32 : can_start 32. Proof. reflexivity. Qed.
+Lemma can_start_40 : can_start 40. Proof. reflexivity. Qed.
+Lemma can_start_91 : can_start 91. Proof. reflexivity. Qed.
+Lemma can_start_0 : can_start 0. Proof. reflexivity. Qed.
+
+Lemma delim_32 : delim 32. Proof. left; reflexivity. Qed.
+Lemma delim_10 : delim 10. Proof. right; left; reflexivity. Qed.
+Lemma delim_41 : delim 41. Proof. right; right; left; reflexivity. Qed.
+Lemma delim_93 : delim 93. Proof. right; right; right; reflexivity. Qed.
+
+Lemma seq_space : forall a tks x y, lexes_to a tks -> lexes_to x y -> lexes_to (a ++ 32 :: x) (tks ++ y).
+Proof.
+  intros a tks x y Ha Hx s t p d Hd Hc V.
+  destruct (Ha s t p 32 delim_32 Hc V) as [s1 [E1 V1]].
+  change (dtok 32) with (@nil token) in V1. rewrite app_nil_r in V1.
+  destruct (Hx s1 (t ++ tks) 32 d Hd can_start_32 V1) as [s2 [E2 V2]].
+  exists s2. split.
+  - replace ((a ++ 32 :: x) ++ [d]) with ((a ++ [32]) ++ (x ++ [d])) by (rewrite <- !app_assoc; reflexivity).
+    rewrite lex_all_app, E1. exact E2.
+  - rewrite <- !app_assoc in V2. rewrite <- app_assoc. exact V2.
+Qed.
+
+Lemma close_with : forall c a tks, (c = 41 \/ c = 93) -> lexes_to a tks -> lexes_to (a ++ [c]) (tks ++ dtok c).
+Proof.
+  intros c a tks Hc Ha s t p d Hd Hcan V.
+  assert (delim c) as Hdc by (destruct Hc; subst; [apply delim_41|apply delim_93]).
+  destruct (Ha s t p c Hdc Hcan V) as [s1 [E1 V1]].
+  destruct (step_delim0 s1 _ c d Hd V1) as [s2 [E2 V2]].
+  exists s2. split.
+  - rewrite lex_all_app, E1. cbn [lex_all]. rewrite E2. reflexivity.
+  - rewrite <- !app_assoc in V2. rewrite <- !app_assoc. exact V2.
+Qed.
+
+Lemma step_open : forall s t p c, (c = 40 \/ c = 91) -> view s LNormal [] t p ->
+  exists s1, lex_rune s c = LOk s1 /\
+             view s1 LNormal [] (t ++ [if c =? 40 then mkTok TLParen [] else mkTok TLSquare []]) c.
+Proof.
+  intros s t p c Hc V. rewrite lex_rune_normal by apply V.
+  apply (push_view _ _ _ _ _ c) in V. apply pview_view in V. set (s1 := ring_push c s) in *. clearbody s1.
+  destruct Hc; subst c; unfold lex_normal; cbn [Z.eqb Pos.eqb orb andb]; unfold with_dump, dump_buffer;
+    rewrite (v_buf _ _ _ _ _ V); (eexists; split; [reflexivity|]); apply view_append_token; assumption.
+Qed.
+
+Lemma open_with : forall c a tks, (c = 40 \/ c = 91) -> lexes_to a tks ->
+  lexes_to (c :: a) ((if c =? 40 then mkTok TLParen [] else mkTok TLSquare []) :: tks).
+Proof.
+  intros c a tks Hc Ha s t p d Hd Hcan V.
+  destruct (step_open s t p c Hc V) as [s1 [E1 V1]].
+  assert (can_start c) as Hcc by (destruct Hc; subst; reflexivity).
+  destruct (Ha s1 _ c d Hd Hcc V1) as [s2 [E2 V2]].
+  exists s2. split.
+  - cbn [app lex_all]. rewrite E1. exact E2.
+  - rewrite <- !app_assoc in V2. exact V2.
+Qed.
+
+Lemma empty_array_lexes : lexes_to [93] [mkTok TRSquare []].
+Proof.
+  intros s t p d Hd Hcan V.
+  destruct (step_delim0 s t p 93 delim_93 V) as [s1 [E1 V1]].
+  destruct (step_delim0 s1 _ 93 d Hd V1) as [s2 [E2 V2]].
+  exists s2. split; [cbn [app lex_all]; rewrite E1, E2; reflexivity|].
+  rewrite <- app_assoc in V2. exact V2.
+Qed.
+
+Section Data.
+Variable is_print : Z -> bool.
+
+(* the data values of the theorem: every atom is one the printer can write with escapes the
+   reader knows; [dat true v]: v in tail position of a pair *)
+Fixpoint dat (tail : bool) (v : value) : Prop :=
+  let body :=
+    match v with
+    | VInt z => - 2 ^ 63 <= z < 2 ^ 63
+    | VUint z => 0 <= z < 2 ^ 64
+    | VFloat _ _ _ => False
+    | VBool _ => True
+    | VNil => True
+    | VChar c => rune_ok is_print 39 c
+    | VStr s => Forall (item_ok is_print) s
+    | VSym n => sym_ok n
+    | VPair h t => dat false h /\ dat true t
+    | VArr l => (fix all (l : list value) : Prop := match l with [] => True | x :: r => dat false x /\ all r end) l
+    | VHash _ => False
+    end in
+  if tail then match v with VNil => True | VPair h t => dat false h /\ dat true t | _ => body end else body.
+
+Fixpoint tk (tail : bool) (v : value) : list token :=
+  let body :=
+    match v with
+    | VInt z => [mkTok TDecimal (itoa z)]
+    | VUint z => [mkTok TUint64 (utoa z)]
+    | VFloat _ sci c => []
+    | VBool b => [mkTok TBool (if b then str_true else str_false)]
+    | VNil => [mkTok TSymbol str_nil]
+    | VChar c => [mkTok TChar [c]]
+    | VStr s => [mkTok TString (map item_rune s)]
+    | VSym n => [mkTok TSymbol n]
+    | VPair h t => mkTok TLParen [] :: tk false h ++ tk true t
+    | VArr l => mkTok TLSquare [] ::
+                (fix el (l : list value) : list token := match l with [] => [] | x :: r => tk false x ++ el r end) l
+                ++ [mkTok TRSquare []]
+    | VHash _ => []
+    end in
+  if tail then
+    match v with
+    | VPair h t => tk false h ++ tk true t
+    | VNil => [mkTok TRParen []]
+    | _ => mkTok TBackslash [] :: body ++ [mkTok TRParen []]
+    end
+  else body.
+
+Definition lex_claim (v : value) : Prop :=
+  (dat false v -> lexes_to (pr is_print false v) (tk false v)) /\
+  (dat true v -> forall a tks, lexes_to a tks -> lexes_to (a ++ pr is_print true v) (tks ++ tk true v)).
+
+Lemma dotted_tail : forall body btk a tks, lexes_to body btk -> lexes_to a tks ->
+  lexes_to (a ++ [32; 92; 32] ++ body ++ [41]) (tks ++ mkTok TBackslash [] :: btk ++ [mkTok TRParen []]).
+Proof.
+  intros body btk a tks Hb Ha.
+  change (a ++ [32; 92; 32] ++ body ++ [41]) with (a ++ 32 :: ([92] ++ 32 :: (body ++ [41]))).
+  change (tks ++ mkTok TBackslash [] :: btk ++ [mkTok TRParen []]) with (tks ++ ([mkTok TBackslash []] ++ (btk ++ dtok 41))).
+  apply seq_space; [exact Ha|]. apply seq_space; [exact backslash_lexes|]. apply close_with; [left; reflexivity|exact Hb].
+Qed.
+
+Ltac atom_claim L :=
+  split; [intros D; cbn [dat] in D; cbn [pr tk]; apply L; exact D
+         |intros D a tks Ha; cbn [dat] in D; cbn [pr tk]; apply dotted_tail; [apply L; exact D|exact Ha]].
+
+Lemma lex_claim_all : forall v, lex_claim v.
+Proof.
+  apply value_ind2.
+  - intros z. atom_claim int_lexes.
+  - intros z. atom_claim uint_lexes.
+  - intros b s c. split; [intros []|intros []].
+  - intros b. split; [intros _; cbn [pr tk]; apply bool_lexes|intros _ a tks Ha; cbn [pr tk]; apply dotted_tail; [apply bool_lexes|exact Ha]].
+  - split; [intros _; cbn [pr tk]; apply nil_lexes|].
+    intros _ a tks Ha. cbn [pr tk]. apply (close_with 41); [left; reflexivity|exact Ha].
+  - intros c. atom_claim (char_lexes is_print).
+  - intros s. atom_claim (str_lexes is_print).
+  - intros n. atom_claim sym_lexes.
+  - intros h t [Hh _] [_ Ht].
+    assert (dat false h /\ dat true t -> lexes_to (pr is_print false (VPair h t)) (tk false (VPair h t))) as Hp.
+    { intros [D1 D2]. cbn [pr tk]. apply (open_with 40); [left; reflexivity|]. apply Ht; [exact D2|]. apply Hh; exact D1. }
+    split; [exact Hp|].
+    intros [D1 D2] a tks Ha. cbn [pr tk].
+    change (a ++ 32 :: pr is_print false h ++ pr is_print true t) with (a ++ 32 :: (pr is_print false h ++ pr is_print true t)).
+    apply seq_space; [exact Ha|]. apply Ht; [exact D2|]. apply Hh; exact D1.
+  - intros l F.
+    assert ((fix all (l : list value) : Prop := match l with [] => True | x :: r => dat false x /\ all r end) l ->
+            lexes_to (pr is_print false (VArr l)) (tk false (VArr l))) as Hp.
+    { intros D. cbn [pr tk]. apply (open_with 91); [right; reflexivity|].
+      induction F as [|x r Hx F IH].
+      - exact empty_array_lexes.
+      - destruct D as [Dx Dr]. destruct r as [|y r'].
+        + cbn [app]. rewrite app_nil_r. apply (close_with 93); [right; reflexivity|]. apply Hx; exact Dx.
+        + rewrite <- app_assoc. apply seq_space; [apply Hx; exact Dx|]. apply IH; exact Dr. }
+    split; [exact Hp|].
+    intros D a tks Ha. apply dotted_tail; [apply Hp; exact D|exact Ha].
+  - intros kvs. split; [intros []|intros []].
+Qed.
+
+Theorem data_lexes : forall v, dat false v -> lexes_to (print is_print v) (tk false v).
+Proof. intros v D. apply (proj1 (lex_claim_all v)). exact D. Qed.
+
+End Data.
+
+(* ======== D: the parser rebuilds the value from the token stream ======== *)
+
+Fixpoint vsize (v : value) : nat :=
+  match v with
+  | VPair h t => S (vsize h + vsize t)
+  | VArr l => S (S ((fix sum (l : list value) : nat := match l with [] => O | x :: r => (vsize x + sum r)%nat end) l))
+  | _ => 1%nat
+  end.
+
+Lemma vsize_pos : forall v, (1 <= vsize v)%nat.
+Proof. destruct v; simpl; lia. Qed.
+
+Definition value_start (t : token) : Prop :=
+  match t_kind t with
+  | TDecimal | TUint64 | TBool | TSymbol | TChar | TString | TLParen | TLSquare | TFloat => True
+  | _ => False
+  end.
+
+Section Parse.
+Variable is_print : Z -> bool.
+Notation dat := (dat is_print).
+
+Lemma tk_first : forall v, dat false v -> exists t0 l, tk false v = t0 :: l /\ value_start t0.
+Proof.
+  intros v D. destruct v; cbn [tk]; try (eexists; eexists; split; [reflexivity|exact I]); destruct D.
+Qed.
+
+Notation mq := mkQ (only parsing).
+
+Definition E (v : value) : Prop :=
+  dat false v -> forall f acc top rest e i k, (vsize v <= f)%nat ->
+  pexpr true f acc top (mq (tk false v ++ rest) e i) k = k (to_sexp v) (mq rest e i).
+
+Definition PL (t : value) : Prop :=
+  dat true t -> forall h, dat false h -> E h -> forall f acc rest e i k, (vsize h + vsize t <= f)%nat ->
+  plist true f acc (mq (tk false h ++ tk true t ++ rest) e i) TRParen k = k (SPair (to_sexp h) (to_sexp t)) (mq rest e i).
+
+Lemma look_cons : forall b acc t l e i kend k, look b acc (mq (t :: l) e i) kend k = k (mq (t :: l) e i).
+Proof. reflexivity. Qed.
+
+Lemma need0_cons : forall acc t l e i k, need acc 0 (mq (t :: l) e i) k = k (mq (t :: l) e i).
+Proof. reflexivity. Qed.
+
+Lemma pexpr_lsquare : forall f acc top l e i k,
+  pexpr true (S f) acc top (mkQ (mkTok TLSquare [] :: l) e i) k = parray true f acc (mkQ l e i) [] k.
+Proof. reflexivity. Qed.
+
+Lemma sym_not_sign : forall n, sym_ok n -> list_eqb n [45] || list_eqb n [43] = false.
+Proof.
+  intros n [_ [F _]]. destruct n as [|c [|c2 n]]; try reflexivity.
+  - inversion F; subst. apply plain_neq in H1. cbn [list_eqb]. rewrite !andb_true_r.
+    apply orb_false_iff; split; apply Z.eqb_neq; lia.
+  - cbn [list_eqb]. rewrite !andb_false_r. reflexivity.
+Qed.
+
+Lemma list_eqb_eq : forall a b, list_eqb a b = true -> a = b.
+Proof.
+  induction a as [|x a IH]; destruct b as [|y b]; simpl; intros H; try discriminate; [reflexivity|].
+  apply andb_true_iff in H. destruct H as [H1 H2]. apply Z.eqb_eq in H1. subst. f_equal. apply IH; assumption.
+Qed.
+
+Lemma sym_not_nil : forall n, sym_ok n -> list_eqb n str_nil = false.
+Proof.
+  intros n [_ [_ [_ H]]]. destruct (list_eqb n str_nil) eqn:Eq; [|reflexivity]. apply list_eqb_eq in Eq. contradiction.
+Qed.
+
+Ltac atom_E := intros D f acc top rest e i k Hf; destruct f as [|f]; [simpl in Hf; lia|];
+  cbn [tk app pexpr]; rewrite look_cons; cbn [tok_at nth q_toks q_tail tl q_err q_instr t_kind t_str to_sexp].
+
+Lemma E_atoms :
+  (forall z, E (VInt z)) /\ (forall z, E (VUint z)) /\ (forall b, E (VBool b)) /\ E VNil /\
+  (forall c, E (VChar c)) /\ (forall s, E (VStr s)) /\ (forall n, E (VSym n)).
+Proof.
+  repeat split.
+  - intros z. atom_E. cbn [dat] in D. rewrite parse_int_itoa by assumption. reflexivity.
+  - intros z. atom_E. cbn [dat] in D. rewrite conv_uint64_utoa by assumption. reflexivity.
+  - intros b. atom_E. destruct b; reflexivity.
+  - atom_E. reflexivity.
+  - intros c. atom_E. reflexivity.
+  - intros s. atom_E. reflexivity.
+  - intros n. atom_E. cbn [dat] in D. rewrite (sym_not_sign n D), (sym_not_nil n D). reflexivity.
+Qed.
+
+Lemma kind_is_start : forall t k, value_start t -> (k = TRParen \/ k = TBackslash \/ k = TComma \/ k = TRSquare) -> kind_is t k = false.
+Proof.
+  intros t k H Hk. unfold kind_is, value_start in *. destruct (t_kind t); try contradiction;
+    destruct Hk as [Hk|[Hk|[Hk|Hk]]]; subst k; reflexivity.
+Qed.
+
+Lemma PL_step : forall h t, dat false h -> E h ->
+  forall f acc rest e i k, (vsize h + vsize t <= f)%nat ->
+  forall tt trest, tk true t ++ rest = tt :: trest ->
+  plist true f acc (mq (tk false h ++ tk true t ++ rest) e i) TRParen k =
+  (let rest' q := plist true (pred f) acc q TRParen (fun tl q' => k (SPair (to_sexp h) tl) q') in
+   if kind_is tt TBackslash then
+     pexpr true (pred f) acc false (mq trest e i) (fun tail q4 =>
+       look true acc q4 (fun _ => OErr acc) (fun q5 =>
+         if kind_is (tok_at q5 0) TRParen then k (SPair (to_sexp h) tail) (q_tail q5) else OErr acc))
+   else rest' (mq (tt :: trest) e i)).
+Proof.
+  intros h t Dh Eh f acc rest e i k Hf tt trest Ht.
+  destruct f as [|f]; [pose proof (vsize_pos h); lia|]. cbn [pred].
+  destruct (tk_first h Dh) as [t0 [l0 [E0 S0]]].
+  cbn [plist]. rewrite E0. rewrite <- app_comm_cons. idtac. rewrite need0_cons.
+  cbn [tok_at nth q_toks]. rewrite (kind_is_start t0 TRParen S0) by auto.
+  rewrite app_comm_cons, <- E0.
+  pose proof (vsize_pos t).
+  rewrite (Eh Dh f acc false (tk true t ++ rest) e i) by lia.
+  rewrite Ht. idtac. rewrite look_cons. cbn [tok_at nth q_toks q_tail tl q_err q_instr]. reflexivity.
+Qed.
+
+Lemma parse_claim : forall v, E v /\ PL v.
+Proof.
+  destruct E_atoms as [Ei [Eu [Eb [En [Ec [Es Ey]]]]]].
+  assert (forall v, (match v with VPair _ _ | VNil => False | _ => True end) -> E v -> PL v) as Hdot.
+  { intros v Hshape Ev Dt h Dh Eh f acc rest e i k Hf.
+    assert (dat false v) as Dv by (destruct v; try contradiction; exact Dt).
+    assert (exists body, tk true v = mkTok TBackslash [] :: body ++ [mkTok TRParen []] /\ tk false v = body) as [body [Hb1 Hb2]]
+      by (destruct v; try contradiction; eexists; split; reflexivity).
+    rewrite (PL_step h v Dh Eh f acc rest e i k Hf (mkTok TBackslash []) (tk false v ++ mkTok TRParen [] :: rest))
+      by (rewrite Hb1, Hb2; rewrite <- app_comm_cons, <- app_assoc; reflexivity).
+    cbv zeta. change (kind_is (mkTok TBackslash []) TBackslash) with true. cbv iota.
+    pose proof (vsize_pos h).
+    rewrite (Ev Dv (pred f) acc false (mkTok TRParen [] :: rest) e i) by lia.
+    idtac. rewrite look_cons. reflexivity. }
+  apply value_ind2.
+  - intros z. split; [apply Ei|apply Hdot; [exact I|apply Ei]].
+  - intros z. split; [apply Eu|apply Hdot; [exact I|apply Eu]].
+  - intros b s c. split; [intros []|intros []].
+  - intros b. split; [apply Eb|apply Hdot; [exact I|apply Eb]].
+  - split; [apply En|].
+    intros _ h Dh Eh f acc rest e i k Hf.
+    rewrite (PL_step h VNil Dh Eh f acc rest e i k Hf (mkTok TRParen []) rest) by reflexivity.
+    cbv zeta. change (kind_is (mkTok TRParen []) TBackslash) with false. cbv iota.
+    pose proof (vsize_pos h). destruct f as [|[|f]]; [simpl in Hf; lia|simpl in Hf; lia|]. reflexivity.
+  - intros c. split; [apply Ec|apply Hdot; [exact I|apply Ec]].
+  - intros s. split; [apply Es|apply Hdot; [exact I|apply Es]].
+  - intros n. split; [apply Ey|apply Hdot; [exact I|apply Ey]].
+  - intros h t [Eh _] [Et PLt].
+    assert (E (VPair h t)) as Ep.
+    { intros [D1 D2] f acc top rest e i k Hf. destruct f as [|f]; [simpl in Hf; lia|].
+      cbn [tk pexpr]. rewrite <- app_comm_cons. idtac. rewrite look_cons.
+      cbn [tok_at nth q_toks t_kind q_tail tl q_err q_instr]. rewrite <- app_assoc.
+      apply (PLt D2 h D1 Eh f acc rest e i k). simpl in Hf. lia. }
+    split; [exact Ep|].
+    intros [D1 D2] h0 Dh0 Eh0 f acc rest e i k Hf.
+    destruct (tk_first h D1) as [t0 [l0 [E0 S0]]].
+    rewrite (PL_step h0 (VPair h t) Dh0 Eh0 f acc rest e i k Hf t0 (l0 ++ tk true t ++ rest))
+      by (cbn [tk]; rewrite E0, <- app_assoc; reflexivity).
+    cbv zeta. rewrite (kind_is_start t0 TBackslash S0) by auto.
+    rewrite app_comm_cons, <- E0.
+    cbn [to_sexp]. apply (PLt D2 h D1 Eh (pred f) acc rest e i). simpl in Hf. pose proof (vsize_pos h0). lia.
+  - intros l F.
+    assert (forall f acc rest e i k arr,
+      (fix all (l : list value) : Prop := match l with [] => True | x :: r => dat false x /\ all r end) l ->
+      (S ((fix sum (l : list value) : nat := match l with [] => O | x :: r => (vsize x + sum r)%nat end) l) <= f)%nat ->
+      parray true f acc (mq ((fix el (l : list value) : list token := match l with [] => [] | x :: r => tk false x ++ el r end) l
+                              ++ mkTok TRSquare [] :: rest) e i) arr k =
+      k (SArr false (rev arr ++ map to_sexp l)) (mq rest e i)) as Harr.
+    { induction F as [|x r Hx F IH]; intros f acc rest e i k arr D Hf.
+      - destruct f as [|f]; [lia|]. cbn [app parray]. idtac. rewrite need0_cons. cbn [tok_at nth q_toks].
+        change (kind_is (mkTok TRSquare []) TComma) with false. change (kind_is (mkTok TRSquare []) TRSquare) with true.
+        cbv iota. rewrite app_nil_r. reflexivity.
+      - destruct D as [Dx Dr]. destruct f as [|f]; [lia|].
+        destruct (tk_first x Dx) as [t0 [l0 [E0 S0]]].
+        cbn [parray]. rewrite E0. rewrite <- !app_comm_cons. idtac. rewrite need0_cons. cbn [tok_at nth q_toks].
+        rewrite (kind_is_start t0 TComma S0), (kind_is_start t0 TRSquare S0) by auto.
+        rewrite !app_comm_cons, <- E0, <- app_assoc.
+        destruct Hx as [Ex _]. pose proof (vsize_pos x).
+        rewrite (Ex Dx f acc false _ e i) by lia.
+        rewrite (IH f acc rest e i k (to_sexp x :: arr) Dr) by lia.
+        cbn [rev map]. rewrite <- app_assoc. reflexivity. }
+    assert (E (VArr l)) as Ea.
+    { intros D f acc top rest e i k Hf. destruct f as [|f]; [simpl in Hf; lia|].
+      cbn [tk]. rewrite <- app_comm_cons. rewrite pexpr_lsquare. rewrite <- app_assoc.
+      cbn [app]. rewrite (Harr f acc rest e i k [] D) by (simpl in Hf; lia). reflexivity. }
+    split; [exact Ea|apply Hdot; [exact I|exact Ea]].
+  - intros kvs. split; [intros []|intros []].
+Qed.
+
+End Parse.
+
+(* ======== the whole reader on a printed value ======== *)
+
+Lemma to_sexp_not_end : forall is_print v, dat is_print false v -> is_send (to_sexp v) = false.
+Proof. intros ip v D. destruct v; try reflexivity; destruct D. Qed.
+
+Theorem read_print_data : forall is_print v fuel, dat is_print false v -> (vsize v + 3 <= fuel)%nat ->
+  observe (parse_whole true fuel (print is_print v)) = (StDone, [to_sexp v]).
+Proof.
+  intros ip v fuel D Hf.
+  destruct (data_lexes ip v D init_lstate [] 0 10 delim_10 can_start_0) as [s' [El V]].
+  { destruct init_ring_ok as [R1 R2]. split; try reflexivity; assumption. }
+  unfold parse_whole, parse_after, p_deliver, p_reset, p_init. cbn [ps_lex ps_out].
+  rewrite reset_is_init. unfold nl. rewrite El. cbn [lres_state lres_ok negb].
+  destruct V as [V1 V2 V3 V4 V5]. rewrite V3. unfold in_string_or_rune. rewrite V1.
+  change (dtok 10) with (@nil token). rewrite app_nil_r. cbn [app].
+  destruct fuel as [|[|[|f3]]]; try lia. cbn [resume].
+  change (ptop true (S (S (S f3))) [] (mkQ (tk false v) false false))
+    with (pexpr true (S (S f3)) [] true (mkQ (tk false v) false false)
+            (fun e q' => if is_send e then (if q_instr q' then OMoreTop [] (S (S (S f3))) else ODone [] (S (S (S f3))))
+                         else ptop true (S (S f3)) ([] ++ [e]) q')).
+  rewrite <- (app_nil_r (tk false v)).
+  rewrite (proj1 (parse_claim ip v) D (S (S f3)) [] true [] false false) by lia.
+  rewrite (to_sexp_not_end ip v D). reflexivity.
+Qed.
+
+(* ======== E: literals denote their mathematical value ======== *)
+
+Lemma digit_val_of : forall base c d, 2 <= base <= 16 -> digit_val c = Some d -> d < base -> digit_of c = d.
+Proof.
+  intros base c d Hb H Hd. unfold digit_val in H. unfold digit_of.
+  destruct ((48 <=? c) && (c <=? 57)); [inversion H; reflexivity|].
+  destruct ((97 <=? c) && (c <=? 122)) eqn:E1.
+  - inversion H; subst. apply andb_true_iff in E1. destruct E1 as [A B]. apply Z.leb_le in A.
+    replace ((97 <=? c) && (c <=? 102)) with true by (symmetry; apply andb_true_iff; split; apply Z.leb_le; lia). lia.
+  - destruct ((65 <=? c) && (c <=? 90)) eqn:E2; [|discriminate]. inversion H; subst.
+    destruct ((97 <=? c) && (c <=? 102)) eqn:E3; [|lia].
+    apply andb_true_iff in E3. destruct E3 as [A B]. apply Z.leb_le in A.
+    apply andb_true_iff in E2. destruct E2 as [A2 B2]. apply Z.leb_le in B2. lia.
+Qed.
+
+Lemma digits_val_pos_value : forall base s acc v, 2 <= base <= 16 -> digits_val base s acc = Some v ->
+  v = acc * base ^ Z.of_nat (length s) + pos_value base (map digit_of s).
+Proof.
+  intros base s. induction s as [|c s IH]; intros acc v Hb H.
+  - simpl in *. inversion H. lia.
+  - cbn [digits_val] in H. destruct (digit_val c) as [d|] eqn:Ed; [|discriminate].
+    destruct (Z.ltb_spec d base) as [Hd|Hd]; [|discriminate].
+    apply IH in H; [|assumption].
+    cbn [map pos_value length]. rewrite map_length. rewrite Nat2Z.inj_succ, Z.pow_succ_r by lia. rewrite H.
+    rewrite (digit_val_of base c d Hb Ed Hd). ring.
+Qed.
+
+Lemma digit_val_nonneg : forall c d, digit_val c = Some d -> 0 <= d.
+Proof.
+  intros c d H. unfold digit_val in H.
+  destruct ((48 <=? c) && (c <=? 57)) eqn:E1; [apply andb_true_iff in E1; destruct E1 as [A B]; apply Z.leb_le in A; inversion H; lia|].
+  destruct ((97 <=? c) && (c <=? 122)) eqn:E2; [apply andb_true_iff in E2; destruct E2 as [A B]; apply Z.leb_le in A; inversion H; lia|].
+  destruct ((65 <=? c) && (c <=? 90)) eqn:E3; [apply andb_true_iff in E3; destruct E3 as [A B]; apply Z.leb_le in A; inversion H; lia|discriminate].
+Qed.
+
+Lemma digits_val_nonneg : forall base s a v, 0 <= base -> 0 <= a -> digits_val base s a = Some v -> 0 <= v.
+Proof.
+  intros base s. induction s as [|x s IH]; intros a v Hb Ha H; simpl in H.
+  - inversion H; subst; assumption.
+  - destruct (digit_val x) as [d|] eqn:Ed; [|discriminate]. destruct (Z.ltb_spec d base); [|discriminate].
+    apply IH in H; [assumption|assumption|]. apply digit_val_nonneg in Ed. nia.
+Qed.
+
+Definition no_sign (s : list Z) : Prop := match s with 45 :: _ | 43 :: _ => False | _ => True end.
+
+Lemma parse_int_value : forall base s v, 2 <= base <= 16 -> no_sign s -> parse_int base s = Some v ->
+  v = pos_value base (map digit_of s) /\ 0 <= v < 2 ^ 63.
+Proof.
+  intros base s v Hb Hn H. unfold parse_int in H.
+  assert ((match s with 45 :: t => (true, t) | 43 :: t => (false, t) | _ => (false, s) end) = (false, s)) as E.
+  { destruct s as [|c s]; [reflexivity|]. destruct c as [|q|q]; try reflexivity.
+    do 6 (destruct q as [q|q|]; try reflexivity); contradiction. }
+  rewrite E in H. destruct s as [|c s]; [discriminate|].
+  destruct (digits_val base (c :: s) 0) as [w|] eqn:Ew; [|discriminate].
+  destruct (Z.ltb_spec w (2 ^ 63)); [|discriminate]. inversion H; subst.
+  pose proof (digits_val_pos_value base (c :: s) 0 v Hb Ew) as Hv. rewrite Z.mul_0_l, Z.add_0_l in Hv.
+  split; [exact Hv|]. split; [|assumption].
+  apply (digits_val_nonneg base (c :: s) 0 v); [lia|lia|exact Ew].
+Qed.
+
+Section Denote.
+Variable pf : list Z -> option Z.
+
+(* decimal, with sign and underscores: parser.go case TokenDecimal *)
+Theorem literal_denotes_dec : forall neg ds v,
+  no_sign (remove_z 95 ds) ->
+  atom_value pf (mkTok TDecimal (spell NDec neg ds)) = Some (RInt v) ->
+  v = math_value NDec neg ds /\ - 2 ^ 63 <= v < 2 ^ 63.
+Proof.
+  intros neg ds v Hn H. unfold atom_value in H. cbn [t_kind t_str spell] in H. unfold math_value. cbn [notation_base].
+  destruct neg.
+  - cbn [app remove_z] in H. change (45 =? 95) with false in H. cbv iota in H.
+    unfold parse_int in H. destruct (remove_z 95 ds) as [|c s] eqn:Er; [discriminate|].
+    destruct (digits_val 10 (c :: s) 0) as [w|] eqn:Ew; [|discriminate].
+    destruct (Z.leb_spec w (2 ^ 63)); [|discriminate]. inversion H; subst.
+    pose proof (digits_val_pos_value 10 (c :: s) 0 w ltac:(lia) Ew) as Hv. rewrite Z.mul_0_l, Z.add_0_l in Hv.
+    pose proof (digits_val_nonneg 10 (c :: s) 0 w ltac:(lia) ltac:(lia) Ew).
+    split; [rewrite Hv; reflexivity|lia].
+  - cbn [app] in H. destruct (parse_int 10 (remove_z 95 ds)) as [w|] eqn:Ew; [|discriminate]. inversion H; subst.
+    destruct (parse_int_value 10 _ v ltac:(lia) Hn Ew) as [A B]. split; [exact A|lia].
+Qed.
+
+(* hex / octal / binary: the token text is the digits after the prefix (DecodeAtom: atom[2:]) *)
+Theorem literal_denotes_radix : forall kind base ds v,
+  ((kind = THex /\ base = 16) \/ (kind = TOct /\ base = 8) \/ (kind = TBinary /\ base = 2)) ->
+  no_sign ds -> atom_value pf (mkTok kind ds) = Some (RInt v) ->
+  v = pos_value base (map digit_of ds) /\ 0 <= v < 2 ^ 63.
+Proof.
+  intros kind base ds v Hk Hn H. unfold atom_value in H. cbn [t_kind t_str] in H.
+  destruct Hk as [[? ?]|[[? ?]|[? ?]]]; subst; cbn iota in H;
+    (destruct (parse_int _ ds) as [w|] eqn:Ew; [|discriminate]); inversion H; subst;
+    apply (parse_int_value _ ds v); (lia || assumption).
+Qed.
+
+Lemma parse_uint_value : forall base s v, 2 <= base <= 16 -> parse_uint base s = Some v ->
+  v = pos_value base (map digit_of s) /\ 0 <= v < 2 ^ 64.
+Proof.
+  intros base s v Hb H. unfold parse_uint in H. destruct s as [|c s]; [discriminate|].
+  destruct (digits_val base (c :: s) 0) as [w|] eqn:Ew; [|discriminate].
+  destruct (Z.ltb_spec w (2 ^ 64)); [|discriminate]. inversion H; subst.
+  pose proof (digits_val_pos_value base (c :: s) 0 v Hb Ew) as Hv. rewrite Z.mul_0_l, Z.add_0_l in Hv.
+  pose proof (digits_val_nonneg base (c :: s) 0 v ltac:(lia) ltac:(lia) Ew). split; [exact Hv|lia].
+Qed.
+
+Lemma byte_len_nonneg : forall s, 0 <= byte_len s.
+Proof. induction s as [|c s IH]; simpl; [lia|]. unfold utf8_len. destruct (c <? 128), (c <? 2048), (c <? 65536); lia. Qed.
+
+(* uint64 suffix: decimal digits, or 0x / 0o prefix: parser.go case TokenUint64 *)
+Theorem literal_denotes_uint : forall n ds v, (n = NUDec \/ n = NUHex \/ n = NUOct) -> ds <> [] ->
+  (n = NUDec -> starts_with [48; 111] ds = false /\ starts_with [48; 120] ds = false) ->
+  atom_value pf (mkTok TUint64 (spell n false ds)) = Some (RUint v) ->
+  v = pos_value (notation_base n) (map digit_of ds) /\ 0 <= v < 2 ^ 64.
+Proof.
+  intros n ds v Hn Hne Hd H. unfold atom_value in H. cbn [t_kind t_str] in H. unfold conv_uint64 in H.
+  assert (forall (c : Z) l, 2 <? byte_len (48 :: c :: l) = negb (match l with [] => true | _ => false end) \/ True) as _ by (right; exact I).
+  destruct Hn as [?|[?|?]]; subst n; cbn [spell notation_base] in *.
+  - destruct (Hd eq_refl) as [A B]. change 3%nat with (length str_ULL) in H. rewrite firstn_app_len in H.
+    rewrite A, B, !andb_false_r in H.
+    destruct (parse_uint 10 ds) as [w|] eqn:Ew; [|discriminate]. inversion H; subst. apply parse_uint_value; [lia|assumption].
+  - replace ([48; 120] ++ ds ++ str_ULL) with (([48; 120] ++ ds) ++ str_ULL) in H by (rewrite <- app_assoc; reflexivity).
+    change 3%nat with (length str_ULL) in H. rewrite firstn_app_len in H.
+    destruct ds as [|c ds]; [congruence|].
+    assert (2 <? byte_len ([48; 120] ++ c :: ds) = true) as Hb.
+    { apply Z.ltb_lt. cbn [app byte_len]. pose proof (byte_len_nonneg ds). unfold utf8_len.
+      change (48 <? 128) with true. change (120 <? 128) with true. cbv iota.
+      destruct (c <? 128), (c <? 2048), (c <? 65536); lia. }
+    rewrite Hb in H. cbn [app starts_with Z.eqb Pos.eqb andb skipn] in H.
+    destruct (parse_uint 16 (c :: ds)) as [w|] eqn:Ew; [|discriminate]. inversion H; subst. apply parse_uint_value; [lia|assumption].
+  - replace ([48; 111] ++ ds ++ str_ULL) with (([48; 111] ++ ds) ++ str_ULL) in H by (rewrite <- app_assoc; reflexivity).
+    change 3%nat with (length str_ULL) in H. rewrite firstn_app_len in H.
+    destruct ds as [|c ds]; [congruence|].
+    assert (2 <? byte_len ([48; 111] ++ c :: ds) = true) as Hb.
+    { apply Z.ltb_lt. cbn [app byte_len]. pose proof (byte_len_nonneg ds). unfold utf8_len.
+      change (48 <? 128) with true. change (111 <? 128) with true. cbv iota.
+      destruct (c <? 128), (c <? 2048), (c <? 65536); lia. }
+    rewrite Hb in H. cbn [app starts_with Z.eqb Pos.eqb andb skipn] in H.
+    destruct (parse_uint 8 (c :: ds)) as [w|] eqn:Ew; [|discriminate]. inversion H; subst. apply parse_uint_value; [lia|assumption].
+Qed.
+
+(* float literals: the value is ParseFloat of the literal with its underscores removed (when they are well placed) *)
+Theorem literal_denotes_float : forall text b sci,
+  inf_word text = false -> no_sign text -> list_eqb text str_NaN = false ->
+  atom_value pf (mkTok TFloat text) = Some (RFloat sci (Some b) text) ->
+  underscore_ok text = true /\ pf (remove_z 95 text) = Some b /\ sci = contains_e text.
+Proof.
+  intros text b sci Hi Hn Hnan H. unfold atom_value in H. cbn [t_kind t_str] in H. rewrite Hnan in H.
+  unfold parse_float_text in H.
+  assert ((match text with 45 :: _ | 43 :: _ => False | _ => True end)) as Hs by exact Hn.
+  destruct text as [|c t].
+  - rewrite Hi in H. destruct (underscore_ok []); [|discriminate]. destruct (pf (remove_z 95 [])) eqn:E; inversion H; subst; auto.
+  - assert (c <> 45 /\ c <> 43) as [N1 N2].
+    { split; intros ->; contradiction. }
+    replace (match c :: t with
+             | 45 :: t0 => if inf_word t0 then Some 18442240474082181120 else if underscore_ok (c :: t) then pf (remove_z 95 (c :: t)) else None
+             | 43 :: t0 => if inf_word t0 then Some 9218868437227405312 else None
+             | _ => if inf_word (c :: t) then Some 9218868437227405312 else if underscore_ok (c :: t) then pf (remove_z 95 (c :: t)) else None
+             end) with (if inf_word (c :: t) then Some 9218868437227405312 else if underscore_ok (c :: t) then pf (remove_z 95 (c :: t)) else None) in H.
+    2:{ destruct c as [|q|q]; try reflexivity. do 6 (destruct q as [q|q|]; try reflexivity); congruence. }
+    rewrite Hi in H. destruct (underscore_ok (c :: t)); [|discriminate].
+    destruct (pf (remove_z 95 (c :: t))) eqn:E; inversion H; subst; auto.
+Qed.
+
+End Denote.
+
+(* ======== F: where the code as it is refutes the property ======== *)
+
+(* strconv.Quote writes \b for U+0008; EscapeChar does not know it: the printed string is rejected *)
+Theorem quote_escape_refuted : forall is_print, is_print 8 = false ->
+  observe (parse_whole true 50 (print is_print (VStr [Rune 8]))) = (StErr, []) /\
+  observe (parse_whole true 50 (print is_print (VChar 8))) = (StErr, []).
+Proof.
+  intros ip H. unfold print, pr, quote_str, quote_rune, flat_map, quote_item, escaped_rune. rewrite H.
+  split; vm_compute; reflexivity.
+Qed.
+
+(* a non-printable rune above U+007F is written \u0085 / \U000e0001, an invalid byte \xNN *)
+Theorem quote_escape_refuted_u : forall is_print, is_print 133 = false -> is_print 917505 = false ->
+  observe (parse_whole true 50 (print is_print (VStr [Rune 133]))) = (StErr, []) /\
+  observe (parse_whole true 50 (print is_print (VStr [Rune 917505]))) = (StErr, []) /\
+  observe (parse_whole true 50 (print is_print (VStr [BadByte 255]))) = (StErr, []).
+Proof.
+  intros ip H1 H2. unfold print, pr, quote_str, quote_rune, flat_map, quote_item, escaped_rune. rewrite H1, H2.
+  repeat split; vm_compute; reflexivity.
+Qed.
+
+(* "-.5" is a float by FloatRegex, but the lexer emits the symbol "-" and the float ".5" *)
+Theorem neg_leading_dot_refuted :
+  re_match re_FloatRegex [45; 46; 53] = true /\
+  lex_text [45; 46; 53; 10] = ([mkTok TSymbol [45]; mkTok TFloat [46; 53]], true).
+Proof. split; vm_compute; reflexivity. Qed.
+
+(* a symbol name that SymbolRegex accepts but that the lexer splits: a+b *)
+Theorem symbol_split_refuted :
+  re_match re_SymbolRegex [97; 43; 98] = true /\
+  lex_text [97; 43; 98; 10] = ([mkTok TSymbol [97]; mkTok TSymbol [43]; mkTok TSymbol [98]], true).
+Proof. split; vm_compute; reflexivity. Qed.
+
+(* ======== char and string literals denote the runes written ======== *)
+
+Theorem char_denotes_raw : forall c, 0 <= c <= 1114111 -> c <> 39 -> c <> 92 -> lexes_to [39; c; 39] [mkTok TChar [c]].
+Proof.
+  intros c Hr N1 N2. pose proof (char_lexes (fun _ => true) c) as H. unfold quote_rune, escaped_rune in H.
+  replace ((c =? 39) || (c =? 92)) with false in H by (symmetry; apply orb_false_iff; split; apply Z.eqb_neq; assumption).
+  apply H. split; [assumption|]. right; right; left; reflexivity.
+Qed.
+
+Theorem char_denotes_esc : forall x c, escape_char x = Some c -> 0 <= c <= 1114111 ->
+  lexes_to [39; 92; x; 39] [mkTok TChar [c]].
+Proof.
+  intros x c He Hr s t p d Hdl _ V.
+  destruct (step_rune_open s t p V) as [s1 [E1 V1]].
+  destruct (step_rune_esc s1 [39] t 39 x c He V1) as [s2 [E2 V2]].
+  destruct (step_rune_close s2 ([39] ++ [c]) t x (mkTok TChar [c]) (decode_char_atom c Hr) V2) as [s3 [E3 V3]].
+  destruct (step_delim0 s3 _ 39 d Hdl V3) as [s4 [E4 V4]].
+  exists s4. split; [|rewrite <- app_assoc in V4; exact V4].
+  change ([39; 92; x; 39] ++ [d]) with (39 :: ([92; x] ++ [39; d])). cbn [lex_all]. rewrite E1.
+  rewrite lex_all_app, E2. cbn [lex_all]. rewrite E3, E4. reflexivity.
+Qed.
+
+(* a string literal whose body is written raw except for the escaped double quote and backslash denotes exactly its runes *)
+Theorem string_denotes : forall rs, Forall (fun c => 0 <= c <= 1114111) rs ->
+  lexes_to (quote_str (fun _ => true) (map Rune rs)) [mkTok TString rs].
+Proof.
+  intros rs F. pose proof (str_lexes (fun _ => true) (map Rune rs)) as H.
+  rewrite map_map in H. cbn [item_rune] in H. rewrite map_id in H. apply H.
+  apply Forall_forall. intros it Hit. apply in_map_iff in Hit. destruct Hit as [c [Hc Hin]]. subst it.
+  rewrite Forall_forall in F. split; [apply F; assumption|]. right; right; left; reflexivity.
+Qed.
+
+(* every escape of the EscapeChar table inside a string *)
+Theorem string_denotes_esc : forall x c, escape_char x = Some c ->
+  lexes_to [34; 92; x; 34] [mkTok TString [c]].
+Proof.
+  intros x c He s t p d Hdl _ V.
+  destruct (step_str_open s t p V) as [s1 [E1 V1]].
+  destruct (step_str_esc s1 [] t 34 x c He V1) as [s2 [E2 V2]].
+  destruct (step_str_close s2 _ t x V2) as [s3 [E3 V3]].
+  destruct (step_delim0 s3 _ 34 d Hdl V3) as [s4 [E4 V4]].
+  exists s4. split; [|rewrite <- app_assoc in V4; exact V4].
+  change ([34; 92; x; 34] ++ [d]) with (34 :: ([92; x] ++ [34; d])). cbn [lex_all]. rewrite E1.
+  rewrite lex_all_app, E2. cbn [lex_all]. rewrite E3, E4. reflexivity.
+Qed.
